@@ -68,6 +68,28 @@ def member_init_rule(prog, res, classes=None):
         ctors = [f for f in prog.funcs.values() if f.cls == q and f.kind == 'ctor' and not (f.implicit and (f.rec.get('copy') or f.rec.get('move')))]
         declared = [m for m in c['methods'] if m['kind'] == 'ctor' and not m['implicit']]
         if not declared:
+            # an aggregate: what matters is how its objects are created.  Every object initialised from a braced list
+            # (members without an initialiser are value-initialised) is defined; an object declared without initialiser is not
+            tag = '%s:%d:' % (c['file'], c['line'])
+            uses, bare = 0, None
+            for h in prog.repo_funcs():
+                for dn in h.all_nodes({'DeclStmt'}):
+                    for d_ in dn['decls']:
+                        t_ = d_.get('type', '')
+                        if not ((q and re.search(r'\b%s\b' % re.escape(q), t_)) or (not q and tag in t_)):
+                            continue
+                        uses += 1
+                        iv = h.nodes[h.strip(d_['init'], 'noop')] if 'init' in d_ else None
+                        if iv is None or (iv['k'] == 'CXXConstructExpr' and not iv.get('args') and not iv.get('list_init')):
+                            bare = (h, dn['id'], d_['name'])
+            if bare is None and (uses or not q):
+                res.ok('member-init', q or 'unnamed aggregate', '%s:%d' % (c['file'].replace(prog.repo + '/', ''), c['line']), 'aggregate without constructors: every object (%d) is created from a braced initialiser list' % uses,
+                       function='', expr=(q or 'aggregate') + ':aggregate', nontrivial=False)
+                continue
+            if bare is not None:
+                res.viol('member-init', q or 'unnamed aggregate', bare[0].loc(bare[1]), 'object `%s` of a class with scalar members %s and no constructor is declared without initialiser: its members are indeterminate' %
+                         (bare[2], [s_['name'] for s_ in scal]), function=bare[0].sig, expr=(q or 'aggregate') + ':noctor')
+                continue
             res.viol('member-init', q, '%s:%d' % (c['file'].replace(prog.repo + '/', ''), c['line']),
                      'class has scalar members %s but no user-provided constructor' % [s['name'] for s in scal], function='', expr=q + ':noctor')
             continue
@@ -598,11 +620,9 @@ def run(prog, tier):
             mn = wf.nodes[wf.strip(args[1], 'all')]
             if mn['k'] == 'CXXDefaultArgExpr':
                 mode = 16 if is_of else 24
-            elif mn.get('cv') is not None:
-                try:
-                    mode = int(mn['cv'])
-                except (TypeError, ValueError):
-                    mode = None
+            else:
+                from paths import const_value
+                mode = const_value(wf, args[1])
         else:
             mode = 16 if is_of else 24
         if mode is None:
